@@ -11,6 +11,7 @@ import (
 	"go/token"
 	"os"
 	"path/filepath"
+	"strconv"
 	"strings"
 )
 
@@ -68,6 +69,13 @@ func main() {
 				enc.Encode(mutant{File: rel, Start: off(s), End: off(e), Repl: repl, Kind: kind, Func: name, Line: fset.Position(s).Line})
 			}
 			ast.Inspect(fd.Body, func(n ast.Node) bool {
+				if os.Getenv("MUTGEN_SET") == "2" {
+					switch n.(type) {
+					case *ast.BasicLit, *ast.UnaryExpr:
+					default:
+						return true
+					}
+				}
 				switch x := n.(type) {
 				case *ast.IfStmt:
 					emit(x.Cond.Pos(), x.Cond.End(), "!("+string(src[off(x.Cond.Pos()):off(x.Cond.End())])+")", "negate-if")
@@ -117,6 +125,19 @@ func main() {
 						emit(x.Pos(), x.End(), "false", "true→false")
 					} else if x.Name == "false" {
 						emit(x.Pos(), x.End(), "true", "false→true")
+					}
+				case *ast.BasicLit:
+					if os.Getenv("MUTGEN_SET") == "2" && x.Kind == token.INT {
+						if n, err := strconv.Atoi(x.Value); err == nil && n < 1000 {
+							emit(x.Pos(), x.End(), strconv.Itoa(n+1), "int "+x.Value+"→"+strconv.Itoa(n+1))
+							if n > 0 {
+								emit(x.Pos(), x.End(), strconv.Itoa(n-1), "int "+x.Value+"→"+strconv.Itoa(n-1))
+							}
+						}
+					}
+				case *ast.UnaryExpr:
+					if os.Getenv("MUTGEN_SET") == "2" && x.Op == token.NOT {
+						emit(x.OpPos, x.OpPos+1, "", "drop-not")
 					}
 				case *ast.BranchStmt:
 					if x.Tok == token.CONTINUE && x.Label == nil {
